@@ -413,6 +413,7 @@ class Session:
             orig = getattr(mock.PullRequestController, fail)
 
             def boom(*a, **k):
+                out['host_failed'] = fail
                 raise requests.exceptions.HTTPError('500 simulated')
             setattr(mock.PullRequestController, fail, boom)
         try:
@@ -427,5 +428,4 @@ class Session:
         finally:
             if orig:
                 setattr(mock.PullRequestController, fail, orig)
-        out['host_failed'] = fail
         return out
